@@ -140,7 +140,9 @@ func sameShape(a, b *ref.Result) bool {
 	}
 	for i := range a.Trace {
 		x, y := a.Trace[i], b.Trace[i]
-		if x.Pc != y.Pc || x.Addr != y.Addr || x.Taken != y.Taken {
+		// the executed path is the pc sequence: a branch whose target is the next
+		// instruction leaves it unchanged whether it is taken or not
+		if x.Pc != y.Pc || x.Addr != y.Addr {
 			return false
 		}
 	}
@@ -164,8 +166,13 @@ func TestC12Model(t *testing.T) {
 	h := hx.Begin(t, "C12", "model")
 	cfgs := sim.AllConfigs()
 	rapid.Check(t, func(rt *rapid.T) {
-		p := drawProfile(rt, []gen.Profile{gen.REG, gen.MEM, gen.WALK, gen.MEMSAFE}, []int{30, 40, 10, 20})
-		c := gen.Program(rt, p)
+		p := drawProfile(rt, []gen.Profile{gen.REG, gen.MEM, gen.WALK, gen.MEMSAFE, jumpsProfile}, []int{27, 35, 8, 15, 15})
+		var c *gen.Case
+		if p.Name == "JUMPS" {
+			c = gen.JumpChainProgram(rt, p)
+		} else {
+			c = gen.Program(rt, p)
+		}
 		r, ok := refRun(c)
 		if !ok {
 			h.Skip()
@@ -177,7 +184,7 @@ func TestC12Model(t *testing.T) {
 			st = st || s.Store
 			tk = tk || s.Taken
 		}
-		h.Eval(hx.Hash(c.Text, c.Regs, c.MemSize, c.MemSeed), ld && st && tk, "profile:"+p.Name)
+		h.Eval(hx.Hash(c.Text, c.Regs, c.MemSize, c.MemSeed), (ld && st && tk) || (p.Name == "JUMPS" && len(r.Trace) >= 6), "profile:"+p.Name)
 		h.Sample(c)
 		try := func(cc c12Case) {
 			if err := c12Judge(cc); err != nil {
@@ -200,6 +207,12 @@ func TestC12Model(t *testing.T) {
 		}
 	})
 }
+
+// jumpsProfile: chains of jumps between small blocks laid out far apart (an
+// instruction-cache stress: MVP-2 <= MVP-1 must survive fetches that keep
+// leaving the cached window in both directions).
+var jumpsProfile = gen.Profile{Name: "JUMPS", MinLen: 3, MaxLen: 60, PoolMin: 2, PoolMax: 4, MemSizes: []int{256},
+	W: gen.Weights{Alu: 1}, ZeroRaPct: 5, MaxDyn: 500}
 
 var viProfile = gen.Profile{Name: "VI", MinLen: 4, MaxLen: 30, PoolMin: 4, PoolMax: 6, MemSizes: []int{256, 1024, 4096},
 	W: gen.Weights{Alu: 1}, TakenPct: 50, ZeroRaPct: 0, MaxDyn: 1500}
